@@ -68,6 +68,8 @@ def show(x):
 
 
 def prov(x):
+    if x is None:
+        return frozenset()
     if isinstance(x, E):
         return x.prov
     if isinstance(x, (tuple, list)):
@@ -79,6 +81,8 @@ def prov(x):
 
 
 def leafsum(x):
+    if x is None:       # None is a legal element (see mk()): the catalogue reads it as 0
+        return 0
     if isinstance(x, E):
         return x.v
     if isinstance(x, (tuple, list)):
@@ -92,21 +96,35 @@ def leaves(x):
     return 1
 
 
+def mk(v, k):
+    """the element a generated emission (value code v, emission id k) stands for: codes 0..5 are
+    tagged elements, code 6 is a plain None (code that uses None as its 'nothing here' marker
+    is exposed; None carries no provenance, so only value-based oracles generate it)"""
+    return None if v == NONE_CODE else E(v, {k})
+
+
+NONE_CODE = 6
+
+
+def _v(x):
+    return 0 if x is None else x.v
+
+
 # ---- function catalogue ---------------------------------------------------------------------
 def inc(x):
-    return E(x.v + 1, x.prov)
+    return E(_v(x) + 1, prov(x))
 
 
 def dbl(x):
-    return E(x.v * 2, x.prov)
+    return None if x is None else E(x.v * 2, x.prov)
 
 
 def neg(x):
-    return E(-x.v, x.prov)
+    return None if x is None else E(-x.v, x.prov)
 
 
 def pair(x):
-    return (x, E(x.v + 1, x.prov))
+    return (x, E(_v(x) + 1, prov(x)))
 
 
 def tsum(x):
@@ -129,6 +147,14 @@ def cnt(*a):
     return E(len(a), prov(a))
 
 
+def poly(*a, **kw):
+    """position-sensitive: the i-th positional argument weighs (i mod 5) + 1, keywords weigh 5
+    (map/starmap pass extra positional arguments *after* the element(s), keywords by name)"""
+    tot = sum(((i % 5) + 1) * leafsum(x) for i, x in enumerate(a))
+    tot += 5 * sum(leafsum(val) for _, val in sorted(kw.items()))
+    return E(tot, prov(a))
+
+
 def is_even(x):
     return leafsum(x) % 2 == 0
 
@@ -138,21 +164,21 @@ def lt3(x):
 
 
 def acc_add(s, x):
-    return E(s.v + leafsum(x), prov(x))
+    return E(_v(s) + leafsum(x), prov(x))
 
 
 def acc_max(s, x):
-    return E(max(s.v, leafsum(x) % M), prov(x))
+    return E(max(_v(s), leafsum(x) % M), prov(x))
 
 
 def acc_count(s, x):
-    return E(s.v + 1, prov(x))
+    return E(_v(s) + 1, prov(x))
 
 
 def acc_rs(s, x):
     """returns_state=True: (new_state, result)"""
-    ns = E(s.v + leafsum(x), prov(x))
-    return ns, E(s.v * 2 + leafsum(x), prov(x))
+    ns = E(_v(s) + leafsum(x), prov(x))
+    return ns, E(_v(s) * 2 + leafsum(x), prov(x))
 
 
 def key_self(x):
@@ -167,7 +193,7 @@ def key_mod3(x):
     return leafsum(x) % 3
 
 
-FUNCS = {f.__name__: f for f in (inc, dbl, neg, pair, tsum, size, wrap, add2, cnt, is_even, lt3,
+FUNCS = {f.__name__: f for f in (inc, dbl, neg, pair, tsum, size, wrap, add2, cnt, poly, is_even, lt3,
                                  acc_add, acc_max, acc_count, acc_rs, key_self, key_mod2,
                                  key_mod3)}
 
@@ -176,8 +202,40 @@ class Boom(Exception):
     """Injected user-function failure (C16/C04)."""
 
     def __init__(self, ident):
-        super().__init__("boom %r" % (ident,))
+        Exception.__init__(self, "boom %r" % (ident,))
         self.ident = ident
+
+
+# the same failure dressed as the built-in exceptions that library code likes to catch for its own
+# purposes (`except StopIteration:` around a next(), `except KeyError:` around a lookup, ...): a
+# user function's exception must reach the emitter whatever its class
+class BoomStop(Boom, StopIteration):
+    pass
+
+
+class BoomKey(Boom, KeyError):
+    pass
+
+
+class BoomAttr(Boom, AttributeError):
+    pass
+
+
+class BoomType(Boom, TypeError):
+    pass
+
+
+FAULT_CLASSES = {c.__name__: c for c in (Boom, BoomStop, BoomKey, BoomAttr, BoomType)}
+_fault_class = [Boom]
+
+
+def set_fault_class(name="Boom"):
+    _fault_class[0] = FAULT_CLASSES[name]
+
+
+def boom(ident):
+    """the failure a generated user-function fault raises (class chosen per case, default Boom)"""
+    return _fault_class[0](ident)
 
 
 # ---- event log ------------------------------------------------------------------------------
@@ -254,7 +312,7 @@ class Consumer:
                 self.finish(len(self.pending) - 1)
             return fut
         if inv in self.fail_at:
-            ex = Boom(("c", self.cid, inv))
+            ex = boom(("c", self.cid, inv))
             self.log.add("cx", self.cid, inv, ex)
             raise ex
         if self.mode == "sync" or self.auto:
@@ -267,7 +325,7 @@ class Consumer:
     async def _coro(self, inv, x):
         self.log.add("cs", self.cid, inv, x, self.log.now(), getattr(self.log, "ctx", None))
         if inv in self.fail_at:
-            ex = Boom(("c", self.cid, inv))
+            ex = boom(("c", self.cid, inv))
             self.log.add("cx", self.cid, inv, ex)
             raise ex
         if self.auto:
@@ -283,7 +341,7 @@ class Consumer:
             return False
         inv, fut = self.pending.pop(j % len(self.pending))
         if inv in self.failing:
-            ex = Boom(("c", self.cid, inv))
+            ex = boom(("c", self.cid, inv))
             self.log.add("cx", self.cid, inv, ex)
             if not fut.done():
                 fut.set_exception(ex)
